@@ -183,3 +183,17 @@ __CPROVER_ensures((!no_exception_thrown && g_threw) ==> (g_exc_caught == 1 && __
 __CPROVER_ensures((!no_exception_thrown && g_threw) ==> g_nt_calls == __CPROVER_old(g_nt_calls))             /*@ob C12.no-transition-not-reported-for-an-aborted-event */
 __CPROVER_ensures(!g_threw ==> (g_exc_caught == 0 && (int)__CPROVER_return_value == g_handled))
 ;
+
+/* ---- C11: is_event_handling_blocked_helper<Event>(true_/false_) ---- */
+extern const _Bool g_flag_terminate, g_flag_interrupted, g_flag_end_interrupt;   /* is_flag_active<...>() answers (C17 units: flags.spec.h) */
+extern const type_t TerminateFlag, InterruptedFlag;
+#define EndInterruptFlag(E) (1000 + (E))
+_Bool is_flag_active(fsm_t* self, type_t flag)
+__CPROVER_assigns()
+__CPROVER_ensures(__CPROVER_return_value == (flag == TerminateFlag ? g_flag_terminate : flag == InterruptedFlag ? g_flag_interrupted : g_flag_end_interrupt))
+;
+_Bool blocked_helper_unit(fsm_t* self, type_t EventT, _Bool has_blocking)
+__CPROVER_requires(TerminateFlag != InterruptedFlag && TerminateFlag < 1000 && InterruptedFlag < 1000 && 0 <= EventT && EventT < 1000000 && Event == EventT)
+__CPROVER_assigns()                                                                                                       /*@ob C11.blocking-test-changes-nothing */
+__CPROVER_ensures(__CPROVER_return_value == (has_blocking && (g_flag_terminate || (g_flag_interrupted && !g_flag_end_interrupt))))   /*@ob C11.blocked-iff-terminated-or-interrupted-without-end-event */
+;
